@@ -98,8 +98,9 @@ class NestedGrammar:
 
     KEY_VALUES = {"a": 1, "b": "s", "c": None, "d": 2.5}
 
-    def __init__(self, keys=("a", "b", "c"), dict_max=2, max_len=2, outer=("list",), extras=("int",)):
+    def __init__(self, keys=("a", "b", "c"), dict_max=2, max_len=2, outer=("list",), extras=("int",), alt=None):
         self.keys, self.dict_max, self.max_len, self.outer, self.extras = tuple(keys), dict_max, max_len, tuple(outer), tuple(extras)
+        self.alt = dict(alt or {})  # key -> a second possible value (of another type) for that key
         self.max_size = max_len
         self.depth = 2
 
@@ -109,7 +110,7 @@ class NestedGrammar:
                 "extra_elements": self.extras}
 
     def tape_len(self):
-        return 2 + self.max_len * (1 + len(self.keys))
+        return 2 + self.max_len * (1 + len(self.keys) + len(self.alt))
 
     def element(self, t):
         c = t.take(1 + len(self.extras))
@@ -119,6 +120,8 @@ class NestedGrammar:
         for k in self.keys:
             if t.take(2) == 1 and len(d) < self.dict_max:
                 d[k] = self.KEY_VALUES[k]
+                if k in self.alt and t.take(2) == 1:
+                    d[k] = self.alt[k]
         return d
 
     def build(self, t):
@@ -131,6 +134,47 @@ class NestedGrammar:
 G_NESTED = NestedGrammar()
 G_NESTED2 = NestedGrammar(keys=("a", "b"), dict_max=2, max_len=2)
 G_NESTED4 = NestedGrammar(keys=("a", "b", "c", "d"), dict_max=3, max_len=2, outer=("list", "tuple"))
+
+
+class ChoiceGrammar:
+    """A fixed list of hand-picked value factories (one tape symbol picks one): shapes the recursive grammars do not
+    reach at their depth bounds -- containers made only of empty containers, ONE mutable object stored at two
+    places, same key with differently typed values."""
+
+    def __init__(self, name, factories):
+        self.name, self.factories = name, tuple(factories)
+        self.max_size, self.depth = 2, 2
+
+    def tape_len(self):
+        return 1
+
+    def describe(self):
+        return {"choice_of": [show(f()) for f in self.factories]}
+
+    def build(self, t):
+        return self.factories[t.take(len(self.factories))]()
+
+
+def _aliased_list():
+    row = [1, 2]
+    return [row, row]
+
+
+def _aliased_dict():
+    d = {"a": 1}
+    return {"x": d, "y": d}
+
+
+G_ODD = ChoiceGrammar("odd", (
+    lambda: ([],), lambda: (1,), lambda: [[]], lambda: [1], lambda: None, lambda: {"a": []}, lambda: {"a": 1}, lambda: [], lambda: (), lambda: {},
+    _aliased_list, _aliased_dict, lambda: [set()], lambda: {"a": 1, "b": "s"}, lambda: set(), lambda: [{"a": 1}, []],
+))
+# key b carries an int in one dict and a str in another: the same key with different value types across merges
+G_NESTED_ALT = None  # set below (needs NestedGrammar)
+# two different class objects inside containers; scalars next to them
+G_CLS = Grammar(top_atoms=("int",), elem_atoms=("cls_A", "cls_B", "int"), containers=("list", "dict_int", "defaultdict", "tuple"), max_size=2, depth=1)
+# str-keyed dicts over two keys (three of them merge through a running intersection / union of key sets)
+G_DICT3 = Grammar(top_atoms=("int",), elem_atoms=("int",), containers=("dict_str",), max_size=2, depth=1, str_keys=("a", "b"))
 
 
 class GrammarSeq:
@@ -153,6 +197,8 @@ class GrammarSeq:
 
 # value 0: lists of <= 2 dicts over {a, b} (+ int elements); value 1: lists of <= 1 dict over {a, c, d}:
 # the second merge adds NEW keys to TypedDicts that already carry optional fields
+G_NESTED_ALT = GrammarSeq(NestedGrammar(keys=("a", "b"), dict_max=2, max_len=2, extras=(), alt={"b": 2}),
+                         NestedGrammar(keys=("a", "b"), dict_max=2, max_len=1, extras=(), alt={"b": 2}))
 G_NESTEDX = GrammarSeq(NestedGrammar(keys=("a", "b"), dict_max=2, max_len=2), NestedGrammar(keys=("a", "c", "d"), dict_max=2, max_len=1, extras=()))
 
 
